@@ -147,6 +147,19 @@ def run(ctx, args):
     sigs, consumed, errors = _trace(ctx, 'TraceFn', e3, os.path.join(base, 'n2'))
     results.append(('skipped input in the enumeration -> tool error (INCOMPLETE), not a verdict', bool(errors), [x[:80] for x in errors[:1]]))
 
+    # ---- creation-date table ---------------------------------------------------------------
+    ddir = os.path.join(base, 'dates')
+    core.run_harness(ctx, ['dates', '--from', '19000', '--to', '19400', '--stride', '1', '--shards', '1', '--out', ddir])
+    d_ev = [json.loads(l) for l in open(os.path.join(ddir, 'shard_0.ndjson'))]
+    dclean, _, derr = _trace(ctx, 'TraceDates', d_ev, os.path.join(base, 'dates_clean'))
+    results.append(('untouched date table is silent', not dclean and not derr, sorted(dclean)))
+    e2 = copy.deepcopy(d_ev)
+    e2[60]['item'][9] ^= 1
+    expect('one digit of one date changed -> C18/DateString', 'TraceDates', e2, 'C18/DateString', 'd1')
+    e3 = [e for i, e in enumerate(d_ev) if i != 77]
+    sigs, consumed, errors = _trace(ctx, 'TraceDates', e3, os.path.join(base, 'd2'))
+    results.append(('skipped day in the enumeration -> tool error (INCOMPLETE), not a verdict', bool(errors), [x[:80] for x in errors[:1]]))
+
     # ---- design-level negative controls: each deviation switch reproduces a (former) defect of the pinned
     # tree inside the bounded model; TLC must find the corresponding property violation -------------------
     def mc_must_fail(name, module, consts, invariants, properties, want):
